@@ -1106,7 +1106,7 @@ func (m *membersPool) Get(k *net.UDPAddr) (Member, bool) {
 	case !found, i == nil:
 		return nil, false
 	default:
-		return i, false
+		return i, true
 	}
 }
 
@@ -1149,19 +1149,22 @@ func (m *membersPool) MembersLen(node base.Address) int {
 }
 
 func (m *membersPool) Set(member Member) (added bool) {
-	_, _, _ = m.addrs.Set(memberid(member.Addr()), func(_ Member, addrfound bool) (Member, error) {
-		var members []Member
+	id := memberid(member.Addr())
 
+	_, _, _ = m.addrs.Set(id, func(_ Member, addrfound bool) (Member, error) {
 		added = !addrfound
 
-		switch i, f := m.members.Value(member.Address().String()); {
-		case !f, i == nil:
-		default:
-			members = i
+		node := member.Address().String()
+
+		// NOTE the member of same address replaces the old one instead of
+		// being counted twice.
+		var members []Member
+		if i, f := m.members.Value(node); f {
+			members = removeMemberByID(i, id)
 		}
 
 		members = append(members, member)
-		m.members.SetValue(member.Address().String(), members)
+		m.members.SetValue(node, members)
 
 		return member, nil
 	})
@@ -1170,13 +1173,43 @@ func (m *membersPool) Set(member Member) (added bool) {
 }
 
 func (m *membersPool) Remove(k *net.UDPAddr) (bool, error) {
-	return m.addrs.Remove(memberid(k), func(i Member, found bool) error {
-		if found {
-			_ = m.members.RemoveValue(i.Address().String())
+	id := memberid(k)
+
+	return m.addrs.Remove(id, func(i Member, found bool) error {
+		if !found {
+			return nil
+		}
+
+		// NOTE only this address leaves; the other addresses of same node
+		// stay.
+		node := i.Address().String()
+
+		switch members, f := m.members.Value(node); {
+		case !f:
+		default:
+			switch left := removeMemberByID(members, id); {
+			case len(left) < 1:
+				_ = m.members.RemoveValue(node)
+			default:
+				m.members.SetValue(node, left)
+			}
 		}
 
 		return nil
 	})
+}
+
+// removeMemberByID returns members without the member of the given id.
+func removeMemberByID(members []Member, id string) []Member {
+	left := make([]Member, 0, len(members))
+
+	for i := range members {
+		if memberid(members[i].Addr()) != id {
+			left = append(left, members[i])
+		}
+	}
+
+	return left
 }
 
 func (m *membersPool) Len() int {
